@@ -155,6 +155,8 @@ impl Game {
         }
 
         let rng = rand::thread_rng().gen_range(0..candidate_book_moves.len());
+        #[cfg(chess_verif)]
+        let rng = crate::verif_hooks::choose(candidate_book_moves.len()).unwrap_or(rng);
         let (book_move, _line_name) = &candidate_book_moves[rng];
         let from_square = book_move.from_square();
         let to_square = book_move.to_square();
